@@ -54,7 +54,7 @@ func checkReuse(c *readCase) (msg string, delivered bool) {
 	}
 	*r = iofault.FailAt{Data: c.Data, At: c.At, WithData: c.WithData}
 	err := intp.Execute(r)
-	if r.Delivered && err == nil {
+	if r.Delivered && err == nil && !endedBefore(c.Data, c.At) {
 		return fmt.Sprintf("interpreter: a read fault at offset %d of %d (data with error: %v) was delivered to the library but the call returned no error (second call on the same interpreter with the same reader object, reloaded)", c.At, len(c.Data), c.WithData), true
 	}
 	// the same data and fault on a fresh interpreter and reader: does the run
@@ -114,9 +114,30 @@ func checkRead(c *readCase) (msg string, delivered bool) {
 				return "", false
 			}
 		}
+		if c.Target == targets.Interp.Name && endedBefore(c.Data, c.At) {
+			return "", false
+		}
 		return fmt.Sprintf("%s: a read fault at offset %d of %d (data with error: %v) was delivered to the library but the call returned no error", c.Target, c.At, len(c.Data), c.WithData), true
 	}
 	return "", r.Delivered
+}
+
+// endedBefore reports whether the program in data ends its own execution
+// (stop, or the like) before it gets to offset at: a definition placed there
+// is not executed, and the run ends without error.  What lies behind that
+// point - a fault included - is of no concern to the run.
+func endedBefore(data []byte, at int) bool {
+	if at > len(data) {
+		at = len(data)
+	}
+	intp := postscript.NewInterpreter()
+	intp.MaxOps = targets.InterpMaxOps
+	probe := append(append([]byte{}, data[:at]...), "\n/zzfaultprobe 1 def\n"...)
+	if err := intp.Execute(bytes.NewReader(probe)); err != nil {
+		return false
+	}
+	_, ran := intp.UserDict["zzfaultprobe"]
+	return !ran
 }
 
 func genReadInput(t *rapid.T) (target string, data []byte, label string, truncatable bool) {
@@ -141,7 +162,7 @@ func genReadInput(t *rapid.T) (target string, data []byte, label string, truncat
 func TestP1ReadFaults(t *testing.T) {
 	rec := ev.New("C13", "readfaults")
 	defer rec.Finish(t)
-	rec.Rule("for each generated input (programs incl. eexec sections, single-CMap files, Type 1 fonts in the four containers from both writers, AFM files, PFB streams; up to 8 KB): a read fault (a distinct sentinel error, or for half of the inputs io.ErrUnexpectedEOF in the persistent forms) at EVERY byte offset 0..len, with the error returned alone or together with the last bytes before the offset, persistent (every later read fails too; both forms) or transient (error returned alone once, reading would continue normally afterwards); for Type 1 and CMap files additionally a truncation at EVERY offset; for programs additionally the persistent fault at every offset in a second call on the same interpreter with the same reader object (a first call read a short program to its end; the object was reloaded). Oracle: if the fault was delivered to the library (the wrapper records it) and the bytes before it do not already determine the complete result (for the two formats with an end marker, PFB framing and AFM: the input cut off at the fault offset reads differently from the whole input - otherwise a reader that stops at the marker may legitimately never look at the fault; all other formats are read to the end of the input) the call must return a non-nil error and must not panic; a truncated file must give an error or the result of the complete file. Non-trivial: fault delivered and strictly inside the data; distinct by (input, offset, variant).")
+	rec.Rule("for each generated input (programs incl. eexec sections, single-CMap files, Type 1 fonts in the four containers from both writers, AFM files, PFB streams; up to 8 KB): a read fault (a distinct sentinel error, or for half of the inputs io.ErrUnexpectedEOF in the persistent forms) at EVERY byte offset 0..len, with the error returned alone or together with the last bytes before the offset, persistent (every later read fails too; both forms) or transient (error returned alone once, reading would continue normally afterwards); for Type 1 and CMap files additionally a truncation at EVERY offset; for programs additionally the persistent fault at every offset in a second call on the same interpreter with the same reader object (a first call read a short program to its end; the object was reloaded). Oracle: if the fault was delivered to the library (the wrapper records it) and the bytes before it do not already determine the complete result (for the two formats with an end marker, PFB framing and AFM: the input cut off at the fault offset reads differently from the whole input - otherwise a reader that stops at the marker may legitimately never look at the fault; all other formats are read to the end of the input - except that a program which ends its own execution, with stop, before the fault offset is not asked for an error either: a definition placed at the offset does not run) the call must return a non-nil error and must not panic; a truncated file must give an error or the result of the complete file. Non-trivial: fault delivered and strictly inside the data; distinct by (input, offset, variant).")
 	ev.SetupRapid(60, 1600)
 	rapid.Check(t, func(t *rapid.T) {
 		target, data, label, trunc := genReadInput(t)
